@@ -154,10 +154,14 @@ def run_transformations(ctx):
         x = round(rng.uniform(1.5, 3.5), 2)
         tol = rng.choice([1e-9, '0.0001%'])
         metric = rng.random() < 0.3
+        default_tol = rng.random() < 0.2
         g = SumGrader(answers={'lower': str(lo), 'upper': str(hi), 'summand': tpl.format(v='n'), 'summation_variable': 'n'},
-                      even_odd=eo, tolerance=tol, variables=['x'], samples=2, metric_suffixes=metric,
-                      sample_from={'x': lib.Scripted(values=[x, x])})
-        kindt = rng.choice(['same', 'reverse', 'rename', 'shift', 'limit_plus', 'limit_minus', 'summand', 'parity_shift'])
+                      even_odd=eo, variables=['x'], samples=2, metric_suffixes=metric,
+                      sample_from={'x': lib.Scripted(values=[x, x])}, **({} if default_tol else {'tolerance': tol}))
+        if default_tol:
+            tol = 1e-12       # the documented default of SumGrader: an ABSOLUTE tolerance of 1e-12
+            ctx.count('default_tolerance_cases')
+        kindt = rng.choice(['same', 'reverse', 'rename', 'shift', 'limit_plus', 'limit_minus', 'summand', 'parity_shift'] + (['slightly_off'] * 3 if default_tol and kind != 'vector' else []))
         v = 'n'
         slo, shi, ssum = lo, hi, tpl.format(v='n')
         want = True
@@ -197,6 +201,13 @@ def run_transformations(ctx):
             want = cnt == 0
             if not want and isinstance(tol, str) and cnt < 1e-4 * np.max(np.abs(np.asarray(a))) * 100:
                 continue
+        elif kindt == 'slightly_off':
+            # off by 1e-9 in total: far outside an absolute tolerance of 1e-12 (but inside any percentage one would think of)
+            a, cnt = ref_sum(f, lo, hi, eo, x)
+            if cnt == 0 or abs(a) > 1e3:
+                continue
+            ssum = '(%s)+1e-9' % tpl.format(v='n')
+            want = False
         elif kindt == 'parity_shift':
             continue
         sub = [str(slo), str(shi), ssum, v]
